@@ -26,6 +26,7 @@ type SpecEnv struct {
 	cells  map[string]Term
 	old    map[string]Term
 	result []Val
+	args   []Val // at a call anchor: the arguments of the anchored call (receiver first)
 	depth  int
 	bound  *binding
 	guard  Term       // path condition inside the expression (ite / && / || / ==> branches)
@@ -322,6 +323,13 @@ func (env *SpecEnv) ident(name string) Val {
 			env.fail("%s out of range", name)
 		}
 		return env.result[i]
+	}
+	if strings.HasPrefix(name, "callarg") && len(name) == 8 && name[7] >= '0' && name[7] <= '9' && env.args != nil {
+		i := int(name[7] - '0')
+		if i >= len(env.args) {
+			env.fail("%s out of range", name)
+		}
+		return env.args[i]
 	}
 	if v, ok := env.lookupVar(name); ok {
 		if v.Deref && v.Addr != nil {
